@@ -303,12 +303,20 @@ func runToChannel(rec *Recorder, script []Tok, capacity int, mode string, cut in
 	rd := newChanReader()
 	esc := &escapes{}
 	var sub ro.Subscription
+	goroutines := runtime.NumGoroutine()
 	esc.run(func() { sub = ro.ToChannel[int](capacity)(src.Observable()).SubscribeWithContext(subCtx, chanObserver(rec, rd)) })
 	if sub == nil {
 		return "subscribe-failed escaped=" + esc.String()
 	}
 	if !waitCh(src.subscribed) {
 		return "harness-timeout at=subscribed"
+	}
+	if mode == "hot" {
+		// ToChannel's goroutine registers the source's subscription only after SubscribeWithContext
+		// has returned (`subscriptions.AddUnsubscribable(source.SubscribeWithContext(…))`) and then
+		// ends; an Unsubscribe inside that window does not stop the source (the model's hot=false
+		// regime, exercised by kind=chanv). The deterministic runs wait for the goroutine to end.
+		waitCond(func() bool { return runtime.NumGoroutine() <= goroutines+1 }, 20*time.Millisecond)
 	}
 	if mode == "sync" {
 		if !waitCh(src.finished) {
